@@ -117,11 +117,18 @@ def run(ctx, rep):
     # period, stored or not — each update_state call of add_reader_change passes Some(reception_timestamp)
     b = fx.fn("DataReaderEntity", "add_reader_change")
     fc = FnCtx(b)
-    ups = fc.calls("InstanceState::update_state")
+    from rules.common import closure_env, subst_captures
+    ups = fc.calls_with_closures(fx, "InstanceState::update_state")
     k = 0
-    for bb, t in ups:
+    for bb, t0, inner, kf in ups:
         k += 1
-        a = E.strip_casts(fc.arg(t, 2)) if len(t.args) > 2 else ("rv", "?")
+        if inner is None:
+            t = t0
+            a = E.strip_casts(fc.arg(t, 2)) if len(t.args) > 2 else ("rv", "?")
+        else:
+            # the call sits in a closure (`find(..).map(|i| i.update_state(kind, Some(ts)))`): its argument in the function's terms
+            t = inner
+            a = E.strip_casts(subst_captures(kf.arg(t, 2), closure_env(fc, kf.body))) if len(t.args) > 2 else ("rv", "?")
         ok = a[0] == "adt" and a[2] == "Some" and a[3] and E.strip_casts(a[3][0])[0] == "param" and "Time" in fc.mir.locals[E.strip_casts(a[3][0])[1]]
         adder(rep, b)("R30d", "an arriving sample restarts the instance's deadline period (update_state gets Some(reception_timestamp))", ok,
                       "update_state is called with %s: a sample that is then filtered or rejected no longer refreshes last_received_time_stamp and a deadline miss is reported although samples keep arriving" % fc.show(a)[:60], t.line)
